@@ -111,7 +111,9 @@ theorem pushDefaultK_no_panic : ∀ (b : B) (k : Nat), (pushDefaultK b k).isPani
       simp only []
       split
       · rfl
-      · exact bind_no_panic _ _ (pushDefaultKAt_no_panic (.cons c m rest) _ k) (fun _ => rfl)
+      split
+      · rfl
+      · exact bind_no_panic _ _ (pushDefaultKAt_no_panic (.cons c m rest) _ k) (fun _ => by split <;> rfl)
 theorem pushDefaultKAll_no_panic : ∀ (fs : BL) (k : Nat), (pushDefaultKAll fs k).isPanic = false
   | .nil, _ => rfl
   | .cons b _ rest, k => by
